@@ -80,7 +80,32 @@ def lift(x):
     raise TypeError(x)
 
 
+NILPOTENT = None      # a symbol eta with eta^2 = 0 (first-order perturbations, R-SERIES.deriv)
+
+
+def drop_eta2(v):
+    eta = NILPOTENT
+    if eta is None or not v.has(eta):
+        return v
+    v = sp.expand(v)
+    out = []
+    for t in sp.Add.make_args(v):
+        if not t.has(eta):
+            out.append(t)
+            continue
+        pw = t.as_powers_dict().get(eta, 0)
+        if pw == 0:            # eta hidden inside a denominator / function: expand to first order properly
+            return sp.expand(sp.series(v, eta, 0, 2).removeO())
+        if pw <= 1:
+            out.append(t)
+    return sp.Add(*out)
+
+
 def simp(v):
+    return drop_eta2(_simp(v))
+
+
+def _simp(v):
     """normal form of a coefficient: a polynomial in the parameters and the root symbols (r_k^2 reduced),
     or a cancelled ratio of two such with a root-free denominator"""
     v = sp.expand(v)
@@ -111,12 +136,13 @@ def add(a, b, sign=1):
 
 def mul(a, b):
     a, b = lift(a), lift(b)
+    pmax = min(a.p + b.vz(), b.p + a.vz(), ORDER)
     out = {}
     for i, x in a.c.items():
         for j, y in b.c.items():
-            if i + j <= ORDER:
+            if i + j <= pmax:
                 out[i + j] = out.get(i + j, 0) + x * y
-    return JetNum({k: simp(v) for k, v in out.items()}, min(a.p + b.vz(), b.p + a.vz()))
+    return JetNum({k: simp(v) for k, v in out.items()}, pmax)
 
 
 def neg(a):
@@ -148,7 +174,7 @@ def power_series(u, coeff):
     return JetNum(out.c, u.p)
 
 
-def inv(a):
+def _inv_pure(a):
     a = lift(a)
     p, a0, u = _unit_series(a)
     s = power_series(u, lambda k: sp.Integer(-1) ** k)
@@ -159,7 +185,7 @@ def div(a, b):
     return mul(a, inv(b))
 
 
-def sqrt(a):
+def _sqrt_pure(a):
     a = lift(a)
     if not a.c:
         return JetNum({}, a.p // 2)
@@ -184,7 +210,7 @@ def _split0(a):
     return a0, u
 
 
-def sin(a):
+def _sin_pure(a):
     a0, u = _split0(a)
     if a0 == 0:
         return _sin_u(u)
@@ -221,14 +247,14 @@ def _cos_u(u):
     return out
 
 
-def cos(a):
+def _cos_pure(a):
     a0, u = _split0(a)
     if a0 == 0:
         return _cos_u(u)
     return add(mul(JetNum({0: sp.cos(a0)}), _cos_u(u)), mul(JetNum({0: sp.sin(a0)}), _sin_u(u)), -1)
 
 
-def atan(a):
+def _atan_pure(a):
     a0, u = _split0(a)
     if a0 != 0:
         raise ValueError("atan of a jet with non-zero constant term")
@@ -252,3 +278,53 @@ def truncate(a, order):
     if a.p < order:
         raise ValueError("jet known through order %d only, %d needed" % (a.p, order))
     return {k: reduce_roots(v) for k, v in a.c.items() if k <= order and reduce_roots(v) != 0}
+
+
+# ---- first-order (dual) extension: a = A + eta*B with eta^2 = 0:  f(a) = f(A) + eta * B * f'(A) ---------------------
+def split_eta(a):
+    a = lift(a)
+    eta = NILPOTENT
+    if eta is None or not any(v.has(eta) for v in a.c.values()):
+        return a, None
+    A_, B_ = {}, {}
+    for k, v in a.c.items():
+        v = sp.expand(v)
+        v0 = v.coeff(eta, 0)
+        v1 = v.coeff(eta, 1)
+        if v0 != 0:
+            A_[k] = v0
+        if v1 != 0:
+            B_[k] = v1
+    return JetNum(A_, a.p), JetNum(B_, a.p)
+
+
+def _dual(a, f, df):
+    A_, B_ = split_eta(a)
+    if B_ is None:
+        return f(A_)
+    eta_ = JetNum({0: NILPOTENT})
+    return add(f(A_), mul(eta_, mul(B_, df(A_))))
+
+
+def inv(a):
+    return _dual(a, _inv_pure, lambda A_: neg(mul(_inv_pure(A_), _inv_pure(A_))))
+
+
+def sqrt(a):
+    def d(A_):
+        if not A_.c:
+            raise ValueError("sqrt is not differentiable at zero")
+        return _inv_pure(mul(JetNum({0: sp.Integer(2)}), _sqrt_pure(A_)))
+    return _dual(a, _sqrt_pure, d)
+
+
+def sin(a):
+    return _dual(a, _sin_pure, _cos_pure)
+
+
+def cos(a):
+    return _dual(a, _cos_pure, lambda A_: neg(_sin_pure(A_)))
+
+
+def atan(a):
+    return _dual(a, _atan_pure, lambda A_: _inv_pure(add(JetNum({0: sp.Integer(1)}), mul(A_, A_))))
